@@ -277,6 +277,103 @@ def nopanic_rule(ctx, facts, cfg):
     ctx.sample({'rule': rid, 'bodies_reachable': len(seen), 'bodies_with_panic_sites': nb, 'obligations': total, 'discharged': done})
 
 
+EMITTERS = ('push', 'write_u16', 'copy_raw_name_from_str', 'extend_from_slice', 'extend')
+
+
+def _rpo(f):
+    """non-cleanup blocks in reverse postorder (control-flow order; the block numbering says nothing after splicing)"""
+    seen, post = set(), []
+    stack = [(0, iter(F.succ(f['blocks'][0])))]
+    seen.add(0)
+    while stack:
+        n, it = stack[-1]
+        adv = False
+        for m in it:
+            if m not in seen and not f['blocks'][m]['cleanup']:
+                seen.add(m)
+                stack.append((m, iter(F.succ(f['blocks'][m]))))
+                adv = True
+                break
+        if not adv:
+            post.append(n)
+            stack.pop()
+    return post[::-1]
+
+
+def _same_root(a, b):
+    if a[0] != b[0]:
+        return False
+    if a[0] == 'call':
+        return a[2] is b[2]
+    return a[1] == b[1]
+
+
+VIEWS = ('::index_mut', '::index', '::deref_mut', '::deref', '::as_mut_slice', '::as_slice', '::as_mut', '::as_ref', '::borrow_mut', '::borrow')
+
+
+def _buffer_roots(f, defs, op):
+    """roots of a buffer operand, looking through the calls that only produce a view of their receiver (rdata[0..2], &mut *v)"""
+    rs = F.roots(f, defs, op)
+    for _ in range(6):
+        out, again = [], False
+        for r in rs:
+            if r[0] == 'call' and r[1].endswith(VIEWS) and r[2]['args']:
+                out += F.roots(f, defs, r[2]['args'][0])
+                again = True
+            else:
+                out.append(r)
+        rs = out
+        if not again:
+            break
+    return rs
+
+
+def first_field_emitted_first(facts, f, defs):
+    """(ok, emission order): the 16-bit field is the first thing that reaches the rdata buffer handed to RR::new.
+    Accepted: two placeholder bytes pushed and then overwritten by write_u16 on rdata itself, or write_u16 into a 2-byte
+    scratch array that is then the first thing appended to rdata."""
+    rdata = None
+    for bi, b in F.blocks(f):
+        t = b['term']
+        if t['k'] == 'call' and (F.call_path(t) or '').endswith('gen::RR::new') and len(t['args']) >= 2:
+            rs = _buffer_roots(f, defs, t['args'][1])
+            if len(rs) == 1:
+                rdata = rs[0]
+    if rdata is None:
+        return False, ['<the buffer handed to RR::new was not identified>']
+    events = []       # (name, onto rdata?, roots of target, roots of source)
+    for bi in _rpo(f):
+        t = f['blocks'][bi]['term']
+        if t['k'] != 'call' or not t['args']:
+            continue
+        p = (F.call_path(t) or '').split('::')[-1]
+        if p not in EMITTERS:
+            continue
+        tgt = _buffer_roots(f, defs, t['args'][0])
+        onto = len(tgt) == 1 and _same_root(tgt[0], rdata)
+        src = _buffer_roots(f, defs, t['args'][1]) if len(t['args']) > 1 else []
+        events.append((p, onto, tgt, src))
+    order = [e[0] if e[1] else e[0] + '(scratch)' for e in events]
+    on = [e for e in events if e[1]]
+    w = [e for e in events if e[0] == 'write_u16']
+    if len(w) != 1:
+        return False, order
+    w = w[0]
+    if w[1]:
+        return [e[0] for e in on[:3]] == ['push', 'push', 'write_u16'], order
+    # scratch form: the write comes first, and the first append to rdata takes its bytes from that scratch array
+    if not on or on[0][0] not in ('extend_from_slice', 'extend'):
+        return False, order
+    if events.index(w) > events.index(on[0]):
+        return False, order
+    ok = len(w[2]) == 1 and len(on[0][3]) == 1 and w[2][0][0] == 'local' and _same_root(w[2][0], on[0][3][0])
+    if ok:
+        ty = f['locals'][w[2][0][1]] if w[2][0][1] < len(f['locals']) else {}
+        ty = ty.get('ty', ty)
+        ok = ty.get('k') == 'array' and str(ty.get('n')) == '2_usize'
+    return ok, order
+
+
 def layout_rule(ctx, facts, cfg):
     rid = 'C13.b'
     layout.check_builder(ctx, facts, cfg, rid)
@@ -331,15 +428,7 @@ def layout_rule(ctx, facts, cfg):
         ctx.instance(rid, '%s writes the %s at rdata+0 (2 bytes)' % (key.split('::')[-2], nm), ok=ok, site=f['at'])
         if not ok:
             ctx.violation(rid, key, 'first-field', '%s must write the 16-bit %s at offset 0 of the rdata; found %s' % (key.split('::')[-2], nm, [layout._fmt(g) for g in got]), site=f['at'], config=cfg)
-        order = []
-        for bi, b in F.blocks(f):
-            t = b['term']
-            if t['k'] == 'call':
-                p = (F.call_path(t) or '').split('::')[-1]
-                if p in ('push', 'write_u16', 'copy_raw_name_from_str', 'extend_from_slice'):
-                    order.append(p)
-        want_prefix = ['push', 'push', 'write_u16']
-        oko = order[:3] == want_prefix
+        oko, order = first_field_emitted_first(facts, f, defs)
         ctx.instance(rid, '%s emits %s' % (key.split('::')[-2], order), ok=oko, site=f['at'])
         if not oko:
             ctx.violation(rid, key, 'field-order', '%s must emit the 2-byte %s first; emission order found: %s' % (key.split('::')[-2], nm, order), site=f['at'], config=cfg)
